@@ -142,6 +142,35 @@ func (z *byz) ops() []ref.WOp {
 	case 4: // a string operator applied to whatever strings the block carries, e.g. matches() with a malformed pattern
 		code := []uint64{8, 8, 6, 7, 5, 9}[r.Intn(6)]
 		ops = append(ops, ref.WOp{Kind: "val", Val: ref.WTerm{K: ref.KStr, U: z.symIndex()}}, ref.WOp{Kind: "val", Val: ref.WTerm{K: ref.KStr, U: z.symIndex()}}, ref.WOp{Kind: "bin", Code: code})
+	case 5: // set algebra over literals of different element types: mixed sets that only exist at run time
+		lit := func() ref.WTerm {
+			st := ref.WTerm{K: ref.KSet}
+			kind := r.Intn(4)
+			for i := 1 + r.Intn(3); i > 0; i-- {
+				switch kind {
+				case 0:
+					st.Set = append(st.Set, ref.WTerm{K: ref.KInt, I: int64(r.Intn(4))})
+				case 1:
+					st.Set = append(st.Set, ref.WTerm{K: ref.KStr, U: uint64(r.Intn(28))})
+				case 2:
+					st.Set = append(st.Set, ref.WTerm{K: ref.KBytes, B: []byte{byte(r.Intn(3))}})
+				default:
+					st.Set = append(st.Set, ref.WTerm{K: ref.KBool, I: int64(r.Intn(2))})
+				}
+			}
+			return st
+		}
+		ops = append(ops, ref.WOp{Kind: "val", Val: lit()})
+		for i := 1 + r.Intn(3); i > 0; i-- {
+			ops = append(ops, ref.WOp{Kind: "val", Val: lit()})
+			if r.Intn(3) == 0 { // nest: combine the last two literals first
+				ops = append(ops, ref.WOp{Kind: "val", Val: lit()}, ref.WOp{Kind: "bin", Code: []uint64{16, 15}[r.Intn(2)]})
+			}
+			ops = append(ops, ref.WOp{Kind: "bin", Code: []uint64{16, 15, 16, 15, 5, 4}[r.Intn(6)]})
+		}
+		if r.Intn(2) == 0 {
+			ops = append(ops, ref.WOp{Kind: "un", Code: 2}, ref.WOp{Kind: "val", Val: ref.WTerm{K: ref.KInt, I: 0}}, ref.WOp{Kind: "bin", Code: 3})
+		}
 	default: // random well-shaped-looking sequences over arbitrary operand types
 		n := 1 + r.Intn(4)
 		depth := 0
@@ -275,8 +304,44 @@ func byzToken(r *rand.Rand, root ed25519.PrivateKey, nblocks int) []byte {
 
 // echo builds authorizer content that touches whatever the hostile block holds:
 // type-agnostic rules, checks and policies over the block's symbol strings.
+// mixedSetExpr combines set literals of different element types with union /
+// intersection / contains, so that sets which no literal could carry exist at run time.
+func mixedSetExpr(r *rand.Rand) ref.Expr {
+	lit := func() ref.Expr {
+		var el []ref.Term
+		kind := r.Intn(3)
+		for i := 1 + r.Intn(2); i > 0; i-- {
+			switch kind {
+			case 0:
+				el = append(el, ref.Int(int64(r.Intn(4))))
+			case 1:
+				el = append(el, ref.Str([]string{"a", "b", "read"}[r.Intn(3)]))
+			default:
+				el = append(el, ref.Bytes([]byte{byte(r.Intn(3))}))
+			}
+		}
+		return ref.Leaf(ref.Term{K: ref.KSet, Set: el})
+	}
+	e := lit()
+	for i := 1 + r.Intn(3); i > 0; i-- {
+		o := lit()
+		if r.Intn(3) == 0 {
+			o = ref.Bin([]string{"union", "inter"}[r.Intn(2)], o, lit())
+		}
+		if r.Intn(2) == 0 {
+			e = ref.Bin([]string{"union", "inter"}[r.Intn(2)], e, o)
+		} else {
+			e = ref.Bin([]string{"union", "inter"}[r.Intn(2)], o, e)
+		}
+	}
+	return ref.Bin(">=", ref.Un("len", e), ref.Leaf(ref.Int(0)))
+}
+
 func echo(r *rand.Rand, g *gen.G, names []string) ref.Authz {
 	a := g.Authz(3, 2, 2, 2, 4)
+	if r.Intn(4) == 0 {
+		a.Checks = append(a.Checks, ref.Check{Queries: []ref.Rule{{Head: ref.Pred{Name: "query"}, Exprs: []ref.Expr{mixedSetExpr(r)}}}})
+	}
 	v := func(i int) ref.Term { return ref.Var(fmt.Sprintf("e%d", i)) }
 	for _, n := range names {
 		if n == "" || r.Intn(2) == 0 {
@@ -319,8 +384,45 @@ func echo(r *rand.Rand, g *gen.G, names []string) ref.Authz {
 	return a
 }
 
+// genC10Rounds: a token from an untrusted holder whose later blocks carry rules that fail with a
+// type error for some request facts and not for others, served by one long-lived authorizer over
+// several requests (fail in block k, Reset, succeed further): state an aborted evaluation left in
+// the authorizer must never crash the next one.
+func genC10Rounds(r *rand.Rand, h *hist) *vm.Plan {
+	g := h.g
+	key := h.issuers[0]
+	v := ref.Var
+	t := h.build(key, g.BlockFor(nil, 3, 1, 1), nil)
+	nb := 2 + r.Intn(3)
+	bad := 1 + r.Intn(nb) // the block (1-based) whose rule depends on the type of a request fact
+	for i := 1; i <= nb; i++ {
+		blk := g.Block(2, 1, 1)
+		if i == bad {
+			blk.Rules = append(blk.Rules, ref.Rule{Head: ref.Pred{Name: "small", Terms: []ref.Term{v("v")}}, Body: []ref.Pred{{Name: "quota", Terms: []ref.Term{v("v")}}},
+				Exprs: []ref.Expr{ref.Bin("<", ref.Leaf(v("v")), ref.Leaf(ref.Int(10)))}})
+		}
+		t = h.attenuate(t, blk)
+	}
+	la := h.add(vm.Op{K: "az", A: t, KS: &vm.KeySel{Key: key}, Lim: &vm.Lim{MaxDurNs: 1e9}, Out: h.slot()})
+	vals := []ref.Term{ref.Str("ten"), ref.Int(5), ref.Bytes([]byte{1}), ref.Int(50), ref.Bool(true)}
+	for rd := 2 + r.Intn(3); rd > 0; rd-- {
+		az := g.AuthzFor(nil, 2, 1, 1, 2)
+		az.Facts = append(az.Facts, ref.Pred{Name: "quota", Terms: []ref.Term{vals[r.Intn(len(vals))]}})
+		h.add(vm.Op{K: "azadd", A: la, Az: &az})
+		h.add(vm.Op{K: "azauth", A: la, Qs: []ref.Rule{{Head: ref.Pred{Name: "small", Terms: []ref.Term{v("x")}}, Body: []ref.Pred{{Name: "small", Terms: []ref.Term{v("x")}}}}}})
+		if r.Intn(3) != 0 {
+			h.add(vm.Op{K: "azreset", A: la})
+		}
+	}
+	h.p.Note = "rounds"
+	return h.p
+}
+
 func genC10(r *rand.Rand, run int, tier string) *vm.Plan {
 	h := newHist(r, 1, false)
+	if r.Intn(8) == 0 {
+		return genC10Rounds(r, h)
+	}
 	g := h.g
 	key := h.issuers[0]
 	seed, _ := hex.DecodeString(h.p.Ops[0].Seed)
@@ -370,6 +472,18 @@ func genC10(r *rand.Rand, run int, tier string) *vm.Plan {
 		}
 		if r.Intn(2) == 0 {
 			h.add(vm.Op{K: "verify", A: t, KS: &vm.KeySel{Key: key}, Az: &az, Via: "NewVerifier", Lim: &vm.Lim{MaxDurNs: 1e9}})
+		}
+		if r.Intn(3) == 0 {
+			// a long-lived authorizer serves several requests about the same hostile token:
+			// whatever an aborted round left behind must not crash a later one
+			az2 := echo(r, g, names)
+			la := h.add(vm.Op{K: "az", A: t, KS: &vm.KeySel{Key: key}, Lim: &vm.Lim{MaxDurNs: 1e9}, Out: h.slot()})
+			h.add(vm.Op{K: "azadd", A: la, Az: &az})
+			h.add(vm.Op{K: "azauth", A: la, Qs: qs})
+			h.add(vm.Op{K: "azreset", A: la})
+			h.add(vm.Op{K: "azadd", A: la, Az: &az2})
+			h.add(vm.Op{K: "azauth", A: la, Qs: qs})
+			h.add(vm.Op{K: "azauth", A: la})
 		}
 		f := g.Fact()
 		h.add(vm.Op{K: "blockid", A: t, F: &f})
